@@ -2,6 +2,7 @@ From Coq Require Import List Arith ZArith.
 From BQ Require Import map.Graph.
 From BQ Require Import map.GraphFloyd.
 From BQ Require Import map.GraphExt.
+From BQ Require Import map.GraphQpu.
 From BQ Require Import map.Kron.
 From Coq Require Extraction ExtrOcamlBasic.
 Extraction "graph_model.ml" mk_adj is_fully_connected is_fully_connected_without degrees is_linear
@@ -9,4 +10,5 @@ Extraction "graph_model.ml" mk_adj is_fully_connected is_fully_connected_without
   mk_mat floyd_ref fw_ijk
   mk_graph edges_of all_to_all linear ring star grid is_embedded_in induced_subgraph relabel_subgraph
   maximal_matching
+  mm_graph mm_get_locations qpu_to_qudit qudit_to_qpu_coded qudit_to_qpu_fixed qpu_connectivity
   kron otimes mmul ident ipower apply_right apply_left swap_mat from_qudit_location perm_matrix complete_perm.
